@@ -13,15 +13,20 @@ constructors of their own and are only counted (`classTypeMembers`).
 
 Event lists (`Ev` of Model/InitOrder.lean) are extracted from the clang AST for
   * every member function / constructor of the classes in scope: reads and writes of scalar members of `*this`,
-    calls of member functions on `this` (referenced by index), `if`/`else` as two alternatives, loops / `switch` /
-    `try` / lambda bodies as `opaque` blocks (their reads happen, their writes are never definite), `return`, and
+    calls of member functions on `this` (referenced by index), `if`/`else` as two alternatives, loops / `try` /
+    handlers / lambda bodies as `opaque` blocks (their reads happen, their writes are never definite; a `switch`
+    gives one opaque block per case label, from the label to the end of the body), `return`, and
     `stop` for throw / break / continue;
   * every local variable (by value) of a class in scope, in any function of the analysed files: the constructor
     it is built with, then the reads / writes of its members through the variable, member-function calls on it,
     and `readAll` wherever the variable is used as a whole (copied, passed on, returned).  These are the
     `lifecycles`; `GlobalPlacer pl(circuit, params); pl.run(); ...` in `GlobalPlacer::place` is one of them.
-  * every other place that constructs such an object (temporaries, `new`, mem-initialisers, return values): the
-    constructor followed by `readAll` (the object is handed on at once).
+  * every other place that constructs such an object (temporaries, `new`, mem-initialisers): the constructor
+    followed by `readAll` (the object is handed on at once).  `return T(args);` is not a site of its own: with
+    guaranteed copy elision the object is the one the caller initialises from the call, so a variable (or
+    temporary) initialised from `f(...)` starts with the alternatives of f's return statements (constructor,
+    value of another object, result of a further call); a function whose definition is not analysed and
+    that returns an object of a weak class is an error.
 Only lifecycles of classes with at least one scalar member that some constructor leaves unset are emitted
 (`weak` classes); for the others the per-constructor verdict already covers every object.
 
